@@ -65,6 +65,7 @@ func paramIdx(f *ssa.Function, name string) int {
 type GuardSpec struct {
 	Assumes    []Assume
 	BinAssumes []BinAssume
+	ValAssumes []ValAssume
 	Args       map[string]lat // parameter name -> abstract value
 	Success    *successSpec
 	NoInline   []string
@@ -92,6 +93,7 @@ func (c *Ctx) guard(p *Program, rule, what string, f *ssa.Function, g GuardSpec)
 		if withAssumes {
 			q.Assumes = g.Assumes
 			q.BinAssumes = g.BinAssumes
+			q.ValAssumes = g.ValAssumes
 			if len(g.Args) > 0 {
 				q.Args = make([]lat, len(f.Params))
 				for i := range q.Args {
@@ -109,11 +111,11 @@ func (c *Ctx) guard(p *Program, rule, what string, f *ssa.Function, g GuardSpec)
 		return q
 	}
 	qb := mk(false)
-	if len(g.Assumes)+len(g.BinAssumes) > 0 && len(g.Args) > 0 {
+	if len(g.Assumes)+len(g.BinAssumes)+len(g.ValAssumes) > 0 && len(g.Args) > 0 {
 		// the abstract arguments alone must not already exclude acceptance
 		qb = mk(true)
 		if qb != nil {
-			qb.Assumes, qb.BinAssumes = nil, nil
+			qb.Assumes, qb.BinAssumes, qb.ValAssumes = nil, nil, nil
 		}
 	}
 	if qb == nil {
@@ -148,6 +150,12 @@ func (c *Ctx) guard(p *Program, rule, what string, f *ssa.Function, g GuardSpec)
 		sites = append(sites, res.Sites[a.Name]...)
 	}
 	for _, a := range g.BinAssumes {
+		if len(res.Sites[a.Name]) == 0 {
+			missing = append(missing, a.Name)
+		}
+		sites = append(sites, res.Sites[a.Name]...)
+	}
+	for _, a := range g.ValAssumes {
 		if len(res.Sites[a.Name]) == 0 {
 			missing = append(missing, a.Name)
 		}
@@ -256,3 +264,102 @@ func relPkg(n *types.Named) string {
 }
 
 func constantString(s string) constant.Value { return constant.MakeString(s) }
+
+// depSink selects the value(s) whose dependences a DEP rule inspects.
+type depSink struct {
+	desc string
+	get  func(p *Program, d *depFn) (bits, int) // labels, number of sink sites found
+}
+
+// sinkCallArg: argument idx (receiver-first for methods; for interface calls index 0 is the receiver)
+// of every call in the function to one of the named callees.
+func sinkCallArg(idx int, callees ...string) depSink {
+	return depSink{
+		desc: fmt.Sprintf("argument %d of %s", idx, strings.Join(callees, "|")),
+		get: func(p *Program, d *depFn) (bits, int) {
+			var out bits
+			n := 0
+			for _, cs := range p.callSites(d.f, callees...) {
+				c := cs.Common()
+				var args []ssa.Value
+				if c.IsInvoke() {
+					args = append(args, c.Value)
+				}
+				args = append(args, c.Args...)
+				if idx < len(args) {
+					out.union(d.fullDep(args[idx]))
+					n++
+				}
+			}
+			return out, n
+		},
+	}
+}
+
+// sinkResult: the values returned by the function (all results).
+func sinkResult() depSink {
+	return depSink{desc: "returned values", get: func(p *Program, d *depFn) (bits, int) {
+		var out bits
+		n := 0
+		for _, b := range d.f.Blocks {
+			for _, in := range b.Instrs {
+				if r, ok := in.(*ssa.Return); ok {
+					for _, v := range r.Results {
+						out.union(d.fullDep(v))
+					}
+					n++
+				}
+			}
+		}
+		return out, n
+	}}
+}
+
+// sinkParamPointee: the memory reachable from a (pointer/slice) parameter after the call.
+func sinkParamPointee(name string) depSink {
+	return depSink{desc: "memory written through parameter " + name, get: func(p *Program, d *depFn) (bits, int) {
+		i := paramIdx(d.f, name)
+		if i < 0 {
+			return nil, 0
+		}
+		var out bits
+		r := d.reach(*d.ptsOf(d.f.Params[i]))
+		r.each(func(o int) { out.union(*d.objT[o]) })
+		return out, 1
+	}}
+}
+
+// depRule: every listed source label must reach the sink.
+func (c *Ctx) depRule(p *Program, rule, what string, f *ssa.Function, sink depSink, sources ...string) bool {
+	construct := what
+	if f == nil {
+		c.undecided(rule, construct, "anchor function does not resolve in the loaded program", "")
+		return false
+	}
+	construct = fname(f) + ": " + what
+	d := p.Dep().analyse(f)
+	labels, n := sink.get(p, d)
+	c.count("dep_functions", 1)
+	if n == 0 {
+		c.undecided(rule, construct, "sink not found: "+sink.desc, p.fnPos(f))
+		return false
+	}
+	var missing []string
+	for _, s := range sources {
+		if strings.HasPrefix(s, "param:") {
+			if paramIdx(f, strings.TrimPrefix(s, "param:")) < 0 {
+				c.undecided(rule, construct, "source "+s+" does not exist", p.fnPos(f))
+				return false
+			}
+		}
+		if !d.hasLabel(labels, s) {
+			missing = append(missing, s)
+		}
+	}
+	if len(missing) > 0 {
+		c.bad(rule, construct, fmt.Sprintf("%s does not depend on %s", sink.desc, strings.Join(missing, ", ")), p.fnPos(f))
+		return false
+	}
+	c.ok(rule, construct, fmt.Sprintf("%s (%d site(s)) depends on %s", sink.desc, n, strings.Join(sources, ", ")), p.fnPos(f))
+	return true
+}
